@@ -7,6 +7,7 @@ import tempfile
 
 import core
 import cfcommon as cf
+import tdcommon as td
 
 CMP = re.compile(r'Compare (raw |post-processed )?with:\n    (\S+) (\S+) (\S+)\n')
 BIN = re.compile(r'First difference at byte offset (\d+), (?:both files have length (\d+)|actual length (\d+), expected length (\d+))\.')
@@ -15,7 +16,9 @@ BIN = re.compile(r'First difference at byte offset (\d+), (?:both files have len
 def run_binary(case):
     root = tempfile.mkdtemp(prefix='cfb_')
     try:
-        os.makedirs(os.path.join(root, 'tmp'))
+        late_tmp = case.get('late_tmp', (len(case['actual']) + len(case['expected'])) % 4 == 1)
+        if not late_tmp:
+            os.makedirs(os.path.join(root, 'tmp'))
         ref = os.path.join(root, 'ref.bin')
         act = os.path.join(root, 'act.bin')
         with open(ref, 'wb') as f:
@@ -33,6 +36,7 @@ def run_binary(case):
             os.makedirs(os.path.join(root, 'envfail'), exist_ok=True)
             os.environ['TDDA_FAIL_DIR'] = os.path.join(root, 'envfail')
         r = R(lambda ok, msg: res.update(passed=bool(ok), message=msg))
+        os.makedirs(os.path.join(root, 'tmp'), exist_ok=True)
         exc = None
         try:
             r.assertBinaryFileCorrect(act, ref)
@@ -52,12 +56,17 @@ class C15(core.Prop):
     pid = 'C15'
     lean_modules = ['TddaVerif.Props.C15']
     theorems = ['TddaVerif.Props.C15.' + t for t in ['pass_writes_nothing', 'raw_actual_content', 'file_actual_not_rewritten',
-        'binary_offset_exact', 'diffMarker_shape', 'diffMarker_self', 'postprocessed_differ_exactly']]
+        'binary_offset_exact', 'diffMarker_shape', 'diffMarker_self', 'postprocessed_differ_exactly',
+        'configured_dir_wins', 'env_dir_when_unset', 'system_dir_otherwise', 'written_inside', 'written_nodup',
+        'no_temporaries_writes_nothing']]
     quick_n = 1500
     thorough_n = 30000
     rule = ('cases: the (actual, reference, options, entry point) cases of C04 (near-miss edits x option subsets x '
             'string / file / list-of-files) plus pairs of byte strings of length 0..12 over a 3-value alphabet with '
-            '0..2 edits for the binary assertion; the scratch tree is snapshotted before and after each assertion. '
+            '0..2 edits for the binary assertion; the scratch tree is snapshotted before and after each assertion; '
+            'calls of the real add_failures (write_file recorded) over actual / reference paths of every shape and seven '
+            'directories; the temporary directory of a fresh test object in a fresh interpreter for every set_defaults value x '
+            'TDDA_FAIL_DIR unset / empty / set. '
             'non-trivial = failing assertion; distinct by content')
     trusted_base = [
         'CPython re (pattern table), file decoding; message wording is parsed by regex in the harness',
@@ -71,9 +80,11 @@ class C15(core.Prop):
              'opts': {'remove_lines': ['user'], 'ignore_substrings': ['id']}},
             {'entry': 'binary', 'actual': [1, 2, 3], 'expected': [1, 2, 4, 5]},
             {'entry': 'binary', 'actual': [1, 2], 'expected': [1, 2, 3]},
-        ]
+        ] + [{'entry': 'tmpdir', 'env': e} for e in td.ENVS]
 
     def gen_case(self, rng, i):
+        if rng.random() < 0.1:
+            return td.gen_written(rng)
         if rng.random() < 0.2:
             n = rng.randint(0, 12)
             if rng.random() < 0.25:
@@ -106,6 +117,10 @@ class C15(core.Prop):
         return cf.gen_case(rng)
 
     def model_ops(self, case):
+        if case['entry'] == 'written':
+            return [td.written_op(case), td.pathops_op(case['d'], case['actual_path'] or case['expected_path'] or 'file')]
+        if case['entry'] == 'tmpdir':
+            return td.tmpdir_ops(case['env'])
         if case['entry'] == 'binary':
             return [{'op': 'c04.first_diff', 'a': case['actual'], 'b': case['expected']}]
         try:
@@ -114,6 +129,10 @@ class C15(core.Prop):
             return []
 
     def impl_outputs(self, case):
+        if case['entry'] == 'written':
+            return [td.run_written(case), td.pathops_impl(case['d'], case['actual_path'] or case['expected_path'] or 'file')]
+        if case['entry'] == 'tmpdir':
+            return td.run_tmpdir(case['env'])
         if case['entry'] == 'binary':
             r = run_binary(case)
             m = BIN.search(r.get('message') or '')
@@ -128,6 +147,8 @@ class C15(core.Prop):
 
     def nontrivial_key(self, case):
         self.count('entry_' + case['entry'])
+        if case['entry'] in ('written', 'tmpdir'):
+            return json.dumps(case, sort_keys=True)
         if case['actual'] != case['expected']:
             return json.dumps(case, sort_keys=True)
         return None
@@ -135,6 +156,29 @@ class C15(core.Prop):
     def oracle(self, case):
         F = []
         fail = lambda clause, detail, key=None: F.append(core.Failure(clause, case, detail, key or clause))
+        if case['entry'] == 'written':
+            # every path handed to write_file lies directly in the temporary directory, and no two are the same
+            got = td.run_written(case)
+            if isinstance(got, dict):
+                fail('raises', repr(got), 'raises:' + got['exc'])
+                return F
+            want_dir = os.path.normpath(case['d'])
+            for p in got:
+                if (os.path.dirname(os.path.normpath(p)) or '.') != want_dir:
+                    fail('writes-outside-tmp', 'writes %r, temporary directory is %r' % (p, case['d']))
+            if len(set(got)) != len(got):
+                fail('artefacts-collide', 'one failure writes the same path twice: %r' % got)
+            if not case['create'] and got:
+                fail('pass-writes', 'create_temporaries=False wrote %r' % got)
+            return F
+        if case['entry'] == 'tmpdir':
+            got = td.run_tmpdir(case['env'])
+            for v, g in zip(td.SETD, got):
+                want = td.expected_tmpdir(v, case['env'])
+                if g != want:
+                    fail('tmp-dir-precedence', 'set_defaults %r, TDDA_FAIL_DIR %r: files go to %r, expected %r'
+                         % (v, case['env'], g, want))
+            return F
         binary = case['entry'] == 'binary'
         r = run_binary(case) if binary else cf.run_assert(case)
         if r['exc'] is not None:
